@@ -141,7 +141,8 @@ SPEC = {
     'int_dec_ok': _int_ok(10), 'int_hex_ok': _int_ok(16), 'empty': lambda x: len(x) == 0,
     'chr8': lambda n: bytes([n]), 'be16': lambda n: n.to_bytes(2, 'big'), 'be64': lambda n: n.to_bytes(8, 'big'),
     'all_bytes': lambda xs: all(isinstance(x, bytes) for x in xs), 'is_bytes': lambda s: isinstance(s, (bytes, bytearray)),
-    'is_ascii': lambda s: all(c < 128 for c in s), 'is_ip_literal': _is_ip,
+    'is_ascii': lambda s: all(c < 128 for c in s), 'is_ip_literal': _is_ip, 'wsplit': lambda s: s.split(),
+    'splitall': lambda s, sep: s.split(sep),
 }
 
 
@@ -209,6 +210,23 @@ class Gen(object):
             except AttributeError:
                 pass
         return o
+
+
+def show(v, reg, depth=0):
+    """printable concrete value: objects built from the class tables are shown by their fields"""
+    v = norm(v)
+    if isinstance(v, (int, bool, bytes, str, type(None), float)):
+        return v
+    if isinstance(v, mock.Mock):
+        return '<mock>'
+    if isinstance(v, (list, tuple)):
+        return [show(x, reg, depth + 1) for x in v][:8]
+    if isinstance(v, dict):
+        return dict((show(k, reg, depth + 1), show(x, reg, depth + 1)) for k, x in list(v.items())[:8])
+    ent = reg.classes.get(type(v).__name__)
+    if ent is not None and depth < 3:
+        return dict((f, show(getattr(v, f, None), reg, depth + 1)) for f in ent['fields'] if not isinstance(getattr(v, f, None), mock.Mock))
+    return repr(v)[:60]
 
 
 def resolve(c, repo_mod_cache={}):
@@ -280,10 +298,9 @@ def crosscheck(reg, contracts, names, tier, seed, gens=None, trials=None):
             except Exception:
                 continue
             st['accepted'] += 1
-            shown = {'args': repr(dict((p, norm(v)) for p, v in args.items()))[:600]}
+            shown = {'args': repr(dict((p, show(v, reg)) for p, v in args.items()))[:900]}
             if selfobj is not None:
-                shown['self'] = repr(dict((f, norm(getattr(selfobj, f, None))) for f in reg.classes[c.self_cls]['fields']
-                                          if not isinstance(getattr(selfobj, f, None), mock.MagicMock)))[:600]
+                shown['self'] = repr(show(selfobj, reg))[:900]
             olds = {}
             ok_old = True
             for group in [posts] + list(rposts.values()):
